@@ -329,7 +329,7 @@ def report_violation(prop: str, seed: int, it: dict, extra_env: dict, findings: 
     execs = 0
     if shrunk and shrunk.get("reproduced"):
         case, viol, execs = shrunk["case"], shrunk["violation"], shrunk["execs"]
-    path = os.path.join(VERIF, "replays", f"{prop}-s{seed}-r{it['r']}.json")
+    path = os.path.join(VERIF, "replays", f"{prop}-s{seed}-r{it['r']}-{core.digest(it['v']['key'])[:6]}.json")
     rep = {"property": prop, "seed": seed, "run": it["r"], "hash_seed": hs, "case": case,
            "expect": {"class": viol["class"], "key": viol["key"], "detail": viol["detail"]},
            "shrink_execs": execs, "original_case": it["case"] if case != it["case"] else None, "repo": repo_ident()}
@@ -351,7 +351,10 @@ def report_violation(prop: str, seed: int, it: dict, extra_env: dict, findings: 
 def replay(path: str) -> int:
     path = os.path.abspath(path)
     rep = json.load(open(path))
-    prop = rep["property"]
+    first = rep if isinstance(rep, dict) else (rep[0] if rep else {})
+    prop = first.get("property") or os.path.basename(path).split("-")[0]  # findings/<PROP>-*.json reproducers
+    if not isinstance(rep, dict):
+        rep = {"hash_seed": first.get("hash_seed", 0)}
     mod = core.prop_module(prop)
     os.makedirs(SCRATCH, exist_ok=True)
     extra_env = mod.prepare(SCRATCH) if hasattr(mod, "prepare") else {}
